@@ -180,7 +180,7 @@ ApplyIni(s, ini, asDefaults, order) ==
   LET n == Len(s.opts)
       s0 == [s EXCEPT !.clearRef = [o \in 1..n |-> TRUE], !.ierr = NoIErr, !.perr = NoErr, !.quoteSeen = [o \in 1..n |-> FALSE]]
       blocked == SelectSeq([o \in 1..n |-> o], LAMBDA o : s.prevDef[o])
-  IN FoldLeft(LAMBDA acc, k : ApplySection(acc, ini.secs[order[k]], asDefaults, blocked), s0, order)
+  IN FoldLeft(LAMBDA acc, k : ApplySection(acc, ini.secs[k], asDefaults, blocked), s0, order)
 
 \* IniParser.Parse: read, then apply.  A syntax error is reported before anything is applied.
 IniParse(s, txt, asDefaults, order) ==
